@@ -115,3 +115,52 @@ package lunarcontext
 //@   requires msValid(p) && p.gIsSet[key]
 //@   modifies now
 //@   ensures[members] seq: result1 == nil && len(result0) == cardOf(p, key) && (hasS(p, key) ==> forall(j, 0, len(result0), result0[j] == setOf(p, key)[j]))
+
+// ---------------------------------------------------------------- the priority queue of the queue processor (C06)
+// admission order: smaller score first, then earlier stamp
+//@ ghost func keyLess(s1 real, t1 int64, s2 real, t2 int64) bool = s1 < s2 || (s1 == s2 && t1 < t2)
+
+//@ func (PriorityQueue).Less
+//@   prop C06
+//@   requires 0 <= i && i < len(pq) && 0 <= j && j < len(pq) && pq[i] != nil && pq[j] != nil
+//@   modifies nothing
+//@   ensures[order] result <==> keyLess(pq[i].score, pq[i].timestamp, pq[j].score, pq[j].timestamp)
+
+// what container/heap needs from Less to pop the minimum: a strict weak order that is total on distinct keys
+//@ lemma[order-irreflexive]
+//@   prop C06
+//@   vars s real, t int64
+//@   ensures[irreflexive] !keyLess(s, t, s, t)
+//@ lemma[order-transitive]
+//@   prop C06
+//@   vars s1 real, t1 int64, s2 real, t2 int64, s3 real, t3 int64
+//@   requires keyLess(s1, t1, s2, t2) && keyLess(s2, t2, s3, t3)
+//@   ensures[transitive] keyLess(s1, t1, s3, t3)
+//@ lemma[order-total]
+//@   prop C06
+//@   vars s1 real, t1 int64, s2 real, t2 int64
+//@   requires !(s1 == s2 && t1 == t2)
+//@   ensures[total] keyLess(s1, t1, s2, t2) || keyLess(s2, t2, s1, t1)
+//@ lemma[order-priority-first]
+//@   prop C06
+//@   vars s1 real, t1 int64, s2 real, t2 int64
+//@   requires s1 < s2
+//@   ensures[lower-number-first] keyLess(s1, t1, s2, t2) && !keyLess(s2, t2, s1, t1)
+//@ lemma[order-fifo-within-priority]
+//@   prop C06
+//@   vars s real, t1 int64, t2 int64
+//@   requires t1 < t2
+//@   ensures[earlier-first] keyLess(s, t1, s, t2) && !keyLess(s, t2, s, t1)
+
+//@ func (*PriorityQueue).Push
+//@   prop C06
+//@   requires pq != nil
+//@   modifies cell(pq)
+//@   ensures[appended] typeis(x, *Item) ==> len(*pq) == old(len(*pq)) + 1 && (*pq)[old(len(*pq))] == x.(*Item) && forall(j, 0, old(len(*pq)), (*pq)[j] == old(*pq)[j])
+//@   ensures[rejected] !typeis(x, *Item) ==> len(*pq) == old(len(*pq)) && forall(j, 0, len(*pq), (*pq)[j] == old(*pq)[j])
+
+//@ func (*PriorityQueue).Pop
+//@   prop C06
+//@   requires pq != nil && len(*pq) >= 1
+//@   modifies cell(pq)
+//@   ensures[last] result == box(old(*pq)[old(len(*pq)) - 1]) && len(*pq) == old(len(*pq)) - 1 && forall(j, 0, len(*pq), (*pq)[j] == old(*pq)[j])
